@@ -664,6 +664,22 @@ def r12_compose_location_kinds(idx, r):
                   "intercoolant of a block with a pin grid) come back as IndexLocation (0,0,0) on the pin lattice")
 
 
+def r13_placing_on_load_changes_nothing(idx, r):
+    """Database.load rebuilds the core through Core.add -> Assembly.moveTo; _compose marks every assembly it read as coming from the DATABASE.
+    The bookkeeping parameters moveTo maintains (numMoves, daysSinceLastMove ...) were just read from the file: every direct store into
+    self.p in Assembly.moveTo must sit behind the `lastLocationLabel != DATABASE` test."""
+    f = idx.method("armi.reactor.assemblies.Assembly", "moveTo")
+    sts = [s_ for s_ in iter_stores(f.node) if s_.chain and s_.chain.startswith("self.p.")]
+    if len(sts) < 2:
+        raise AnchorMissing("Assembly.moveTo: bookkeeping parameter stores")
+    for s_ in sts:
+        conds = {(norm(t), p) for t, p in path_conditions(f.node, s_.stmt)}
+        ok = any(("DATABASE" in c and "lastLocationLabel" in c) and ((("!=" in c) and p) or (("==" in c) and not p)) for c, p in conds)
+        r.require(ok, f"Assembly.moveTo:{s_.attr}:not-when-loading", f, node=s_.stmt,
+                  msg=f"`{norm(s_.stmt)}` also runs while the assembly is being placed by Database.load: the value read from the file is overwritten, so the loaded state is not the "
+                      "written one")
+
+
 def run(idx, chk):
     chk.explanation = (
         "C04: Layout.writeToDB/_readLayout, _createLayout/_initComps/_compose, _packLocationsV3/_unpackLocationsV2, "
@@ -698,3 +714,5 @@ def run(idx, chk):
                  necessary="a grid rebuilt from its stored constructor arguments has the same metadata")
     chk.run_rule("R04.12", "when the hierarchy is rebuilt, only index-kind locations are looked up on the parent's grid", lambda r: r12_compose_location_kinds(idx, r), floor=1,
                  necessary="every object is loaded with the kind of location it was written with")
+    chk.run_rule("R04.13", "placing an assembly that was read from a database changes none of its parameters", lambda r: r13_placing_on_load_changes_nothing(idx, r), floor=2,
+                 necessary="loading returns the state as written")
